@@ -203,6 +203,10 @@ def OpOkB (c : Cell) : Op → Bool
     decide (0 ≤ a.demand.m) && decide (0 ≤ a.demand.c) && decide (0 ≤ a.demand.d) && a.server.isNone
   | _ => true
 
+/-- Executable guard for C04: instances of one affinity share their limits (`LimOk`, InvAffOps.lean). -/
+def LimOkB (c : Cell) : Op → Bool
+  | .addApp a => c.apps.all (fun x => x.aff != a.aff || decide (x.limits = a.limits))
+  | _ => true
 
 def runOps (c : Cell) : List Op → M Cell
   | [] => pure c
